@@ -214,7 +214,9 @@ fn truncations(f: &File, fi: usize, ctx: &Ctx, rep: &mut Report) {
 /// Full traversal on instrumented sources: open, iterate to the end, then read_nth for each
 /// i; every API call gets its own epoch. Returns per-call (epoch, label, is_err, is_io) and
 /// the Ok dumps.
-fn traversal(shp: Src, shx: Option<Src>, n: usize) -> Result<Vec<(usize, String, bool, bool, Option<D>)>, panicmon::PanicInfo> {
+/// `order` 0: open, iterate to the end, read_nth_shape for each i.
+/// `order` 1 (index only): open, read_nth_shape(0), iterate, read_nth_shape(n-1), iterate.
+fn traversal(shp: Src, shx: Option<Src>, n: usize, order: u8) -> Result<Vec<(usize, String, bool, bool, Option<D>)>, panicmon::PanicInfo> {
     panicmon::catch(|| {
         let mut calls = vec![];
         let set = |e: usize| {
@@ -239,8 +241,20 @@ fn traversal(shp: Src, shx: Option<Src>, n: usize) -> Result<Vec<(usize, String,
                 return calls;
             }
         };
-        {
+        let passes = if order == 1 && shx.is_some() { 2 } else { 1 };
+        for pass in 0..passes {
+            if order == 1 {
+                let i = if pass == 0 { 0 } else { n.saturating_sub(1) };
+                epoch += 1;
+                set(epoch);
+                match rd.read_nth_shape(i) {
+                    None => calls.push((epoch, format!("nth({})->None", i), false, false, None)),
+                    Some(Ok(s)) => calls.push((epoch, format!("nth({})", i), false, false, Some(s.d()))),
+                    Some(Err(e)) => calls.push((epoch, format!("nth({})", i), true, matches!(e, Error::IoError(_)), None)),
+                }
+            }
             let mut it = rd.iter_shapes();
+            let start = calls.len();
             loop {
                 epoch += 1;
                 set(epoch);
@@ -255,12 +269,12 @@ fn traversal(shp: Src, shx: Option<Src>, n: usize) -> Result<Vec<(usize, String,
                         break;
                     }
                 }
-                if calls.len() > n + 4 {
+                if calls.len() - start > n + 4 {
                     break;
                 }
             }
         }
-        if shx.is_some() {
+        if shx.is_some() && order == 0 {
             for i in 0..n {
                 epoch += 1;
                 set(epoch);
@@ -282,7 +296,11 @@ fn faults_and_chunks(f: &File, fi: usize, ctx: &Ctx, rep: &mut Report) {
         // undisturbed traversal: number of operations on each source
         let shp = Src::new(f.shp.clone());
         let shx = if with_shx { Some(Src::new(f.shx.clone())) } else { None };
-        let base = match traversal(shp.clone(), shx.clone(), n) {
+        for order in [0u8, 1] {
+        if order == 1 && !with_shx {
+            continue;
+        }
+        let base = match traversal(shp.clone(), shx.clone(), n, order) {
             Ok(c) => c,
             Err(p) => {
                 rep.violation("fault/undisturbed-panic", &format!("c13:f{}:base", fi), J::s(p.class()));
@@ -295,7 +313,7 @@ fn faults_and_chunks(f: &File, fi: usize, ctx: &Ctx, rep: &mut Report) {
         for (target, n_ops) in [("shp", n_shp), ("shx", n_shx)] {
             for k in 0..n_ops {
                 for persistent in [false, true] {
-                    let case = format!("c13:f{}:fault:{}:{}:k{}:{}", fi, if with_shx { "idx" } else { "noidx" }, target, k, if persistent { "p" } else { "o" });
+                    let case = format!("c13:f{}:fault:{}{}:{}:k{}:{}", fi, if with_shx { "idx" } else { "noidx" }, if order == 1 { ":nth-first" } else { "" }, target, k, if persistent { "p" } else { "o" });
                     if !ctx.want(&case) {
                         continue;
                     }
@@ -308,7 +326,7 @@ fn faults_and_chunks(f: &File, fi: usize, ctx: &Ctx, rep: &mut Report) {
                     rep.eval();
                     rep.nontrivial(&case);
                     let detail = |what: String| J::obj(vec![("type", J::s(tname)), ("with_index", J::Bool(with_shx)), ("faulty_source", J::s(target)), ("fault_at_op", J::UInt(k as u64)), ("persistent", J::Bool(persistent)), ("what", J::s(what))]);
-                    match traversal(s1, s2, n) {
+                    match traversal(s1, s2, n, order) {
                         Err(p) => rep.violation(&format!("fault-{}/panic", faulty.fault_kind().map(|c| if c == 'r' { "read" } else { "seek" }).unwrap_or("none")), &case, detail(p.class())),
                         Ok(calls) => {
                             let kind = match faulty.fault_kind() {
@@ -335,7 +353,14 @@ fn faults_and_chunks(f: &File, fi: usize, ctx: &Ctx, rep: &mut Report) {
                             for c in &calls {
                                 if let Some(g) = &c.4 {
                                     let idx = if c.1.starts_with("nth(") { c.1[4..c.1.len() - 1].parse::<usize>().unwrap_or(usize::MAX) } else { let p = pos; pos += 1; p };
-                                    let ok = f.want.get(idx).map(|w| first_diff(g, w).is_none()).unwrap_or(false);
+                                    // in the nth-first order the position of an iteration item after a
+                                    // failed call is not specified: there the item only has to be SOME
+                                    // record of the file (never invented data)
+                                    let ok = if order == 1 && !c.1.starts_with("nth(") {
+                                        f.want.iter().any(|w| first_diff(g, w).is_none())
+                                    } else {
+                                        f.want.get(idx).map(|w| first_diff(g, w).is_none()).unwrap_or(false)
+                                    };
                                     if !ok {
                                         rep.violation(&format!("fault-{}/wrong-shape", kind), &case, detail(format!("{} returned a shape that is not record {}", c.1, idx)));
                                         break;
@@ -347,7 +372,15 @@ fn faults_and_chunks(f: &File, fi: usize, ctx: &Ctx, rep: &mut Report) {
                 }
             }
         }
+        }
         // ---- short reads
+        let shp = Src::new(f.shp.clone());
+        let shx = if with_shx { Some(Src::new(f.shx.clone())) } else { None };
+        let base = match traversal(shp.clone(), shx.clone(), n, 0) {
+            Ok(c) => c,
+            Err(_) => return,
+        };
+        let base_ok: Vec<&D> = base.iter().filter_map(|c| c.4.as_ref()).collect();
         let mut schedules: Vec<Chunking> = (1..=8).map(Chunking::Fixed).collect();
         for s in 0..ctx.pick(12, 60) {
             schedules.push(Chunking::Random(ctx.seed ^ (s as u64 * 104729 + 7), 1 + s % 11));
@@ -362,7 +395,7 @@ fn faults_and_chunks(f: &File, fi: usize, ctx: &Ctx, rep: &mut Report) {
             rep.count("short_read_schedules", 1);
             let s1 = Src::chunked(f.shp.clone(), sch.clone());
             let s2 = if with_shx { Some(Src::chunked(f.shx.clone(), sch.clone())) } else { None };
-            match traversal(s1, s2, n) {
+            match traversal(s1, s2, n, 0) {
                 Err(p) => rep.violation("short-read/panic", &case, J::s(p.class())),
                 Ok(calls) => {
                     let got: Vec<&D> = calls.iter().filter_map(|c| c.4.as_ref()).collect();
@@ -379,12 +412,35 @@ fn faults_and_chunks(f: &File, fi: usize, ctx: &Ctx, rep: &mut Report) {
 pub fn run(ctx: &Ctx) -> Report {
     let types: Vec<i32> = if cfg!(miri) { vec![1, 25] } else { TYPES.to_vec() };
     let per_type = if cfg!(miri) { 1 } else { ctx.pick(4, 16) };
-    let items: Vec<(i32, usize)> = types.iter().flat_map(|&t| (0..per_type).map(move |k| (t, k))).collect();
+    let mut items: Vec<(i32, usize)> = types.iter().flat_map(|&t| (0..per_type).map(move |k| (t, k))).collect();
+    // files with one LARGE record between two small ones (more than 1024 / 4096 points in the
+    // last part of the large shape): truncation and faults inside a big coordinate array
+    if !cfg!(miri) {
+        for (j, &t) in [3, 15, 8, 25].iter().enumerate() {
+            items.push((t, 1000 + j));
+            if ctx.thorough {
+                items.push((t, 2000 + j));
+            }
+        }
+    }
     let mut rep = par(ctx, items.len(), |idx, rep| {
         let (t, k) = items[idx];
         let mut r = Rng::derive(ctx.seed, &[tag("c13"), t as u64, k as u64]);
         let c = Cfg::hostile(if k % 2 == 0 { 0.1 } else { 0.5 }, if cfg!(miri) { 2 } else { 3 }, if cfg!(miri) { 2 } else { 4 });
-        let shapes = gen::sequence(t, &mut r, &c, 1, if cfg!(miri) { 2 } else { 4 }, k as u64);
+        let shapes = if k >= 1000 {
+            let big = if k >= 2000 { 4100 } else { 1030 + 7 * (k % 10) };
+            let small = Cfg::plain(2, 3);
+            let large = if gen::is_multipoint(t) { gen::shape_exact(t, &mut r, &small, 1, big) } else {
+                // two parts: a short one and a long LAST one
+                let a = gen::shape_exact(t, &mut r, &small, 1, 3).d();
+                let b = gen::shape_exact(t, &mut r, &small, 1, big).d();
+                crate::shapes::build_from_parts(t, &[(0, a.parts[0].clone()), (if t == 3 { 0 } else { 1 }, b.parts[0].clone())], false)
+            };
+            rep.count("files_with_a_large_record", 1);
+            vec![gen::shape(t, &mut r, &small), large, gen::shape(t, &mut r, &small)]
+        } else {
+            gen::sequence(t, &mut r, &c, 1, if cfg!(miri) { 2 } else { 4 }, k as u64)
+        };
         let (shp, shx) = write_all_mem(&shapes, true).expect("harness: write");
         let want: Vec<D> = shapes.iter().map(|s| s.d().expected_after_roundtrip()).collect();
         let ends: Vec<usize> = rawshp::walk(&shp).iter().map(|r| r.end()).collect();
